@@ -78,6 +78,13 @@ def impl(case):
                 sk = opname[(case["nodes"][s]["kind"], case["nodes"][s]["cls"])]
                 src = f"n{s}/{sk}/{'z' if case['nodes'][s]['kind'] == 'r' else 'x'}"
             edges.append((src, f"n{t}/{tk}/r_in", None, d))
+        # spread sinks: extra integrator nodes fed over (delay, spread) edges; they are not observed and not part of the model — they
+        # only make the source variable carry a gamma-kernel edge next to its discrete delays (which must keep their delays: D114)
+        for j, (s_, d_, sp_) in enumerate(case.get("spread_sinks", [])):
+            nodes[f"snk{j}"] = NodeTemplate(f"SNK{j}", operators={ops[("t", 0)]: {"x": 0.0}})
+            sk = opname[(case["nodes"][s_]["kind"], case["nodes"][s_]["cls"])]
+            edges.append((f"n{s_}/{sk}/x", f"snk{j}/{opname[('t', 0)]}/r_in", None,
+                          {"weight": 1.0, "delay": float(Fr(d_)), "spread": float(Fr(sp_))}))
         dt = float(Fr(case["dt"]))
         c = CircuitTemplate("c", nodes=nodes, edges=edges)
         try:
@@ -209,7 +216,7 @@ def gen_case(rng, kind="valid"):
     dt = Fr(1, rng.choice([4, 8, 16]))
     vec = rng.random() < 0.5 or fan
     key = (lambda i: nodes[i]["cls"]) if vec else (lambda i: i)
-    p_undelayed = {"valid": 0.3, "sibling": 0.4, "parallel": 0.3, "heun": 0.2, "none": 0.4, "short": 0.2, "tap": 0.3, "mixnone": 0.6, "twin": 0.3}[kind]
+    p_undelayed = {"valid": 0.3, "sibling": 0.4, "parallel": 0.3, "heun": 0.2, "none": 0.4, "short": 0.2, "tap": 0.3, "mixnone": 0.6, "twin": 0.3, "spreadsib": 0.2}[kind]
     uform = "none" if kind == "none" else "nokey"
     edges = []
     for j in range(len(T) + rng.randint(0, 3) if fan else rng.randint(1, 7)):
@@ -278,6 +285,11 @@ def gen_case(rng, kind="valid"):
             if e[3] not in ("nokey", "none") and rhe(Fr(e[3]) / dt) < 2:
                 e[3] = str(Fr(e[3]) + dt)
         case["steps"] = max(case["steps"], max([rhe(Fr(e[3]) / dt) for e in edges if e[3] not in ("nokey", "none")] + [0]) + 3)
+    if kind in ("valid", "spreadsib") and "twins" not in case and rng.random() < (1.0 if kind == "spreadsib" else 0.15):
+        # a gamma-kernel edge (delay, spread) from some sources to unobserved sink nodes, next to their discrete delays
+        srcs_d = sorted({e[0] for e in edges if e[3] not in ("nokey", "none")}) or S
+        case["spread_sinks"] = [[rng.choice(srcs_d), str(rng.choice([Fr(1), Fr(2)])), str(rng.choice([Fr(1, 2), Fr(1)]))]
+                                for _ in range(rng.randint(1, 2))]
     if kind in ("valid", "sibling", "tap"):
         # taps: every source node of some structural classes carries a second operator w' = x (a node with another operator list is
         # another class, so a class is tapped as a whole); integer-valued delays written as Python ints
@@ -503,7 +515,7 @@ def check(ctx):
     else:
         cases = [c["case"] if "case" in c else c for c in load_corpus("C09")]
         cases += [gen_case(ctx.rng, "valid") for _ in range(n_valid)]
-        for kind in ("sibling", "parallel", "heun", "none", "short", "tap", "mixnone", "twin"):
+        for kind in ("sibling", "parallel", "heun", "none", "short", "tap", "mixnone", "twin", "spreadsib"):
             cases += [gen_case(ctx.rng, kind) for _ in range(n_viol)]
         cases += [gen_relay(ctx.rng) for _ in range(n_valid // 5)]
         cases += [gen_conn(ctx.rng) for _ in range(n_valid // 5)]
@@ -562,7 +574,7 @@ def check(ctx):
     nt = {canon(c) for i, c in enumerate(cases) if nontrivial(c) and i in in_guard}
     dt_of = lambda c: Fr(c["dt"])
     frac_q = lambda c: sorted({str((Fr(e[3]) / dt_of(c)) % 1) for e in c["edges"] if e[3] not in ("nokey", "none")})
-    hist = dict(relay_circuits=sum(1 for c in cases if c.get("relay")), with_taps=sum(1 for c in cases if c.get("taps")), int_delays=sum(1 for c in cases if c.get("int_delays")), connectivity_stream=len(ci), decimal_step_stream=len(dec_cases), decimal_inexact_quotient=sum(1 for c in dec_cases if c["inexact_quotient"]),
+    hist = dict(with_spread_sibling=sum(1 for c in cases if c.get("spread_sinks")), relay_circuits=sum(1 for c in cases if c.get("relay")), with_taps=sum(1 for c in cases if c.get("taps")), int_delays=sum(1 for c in cases if c.get("int_delays")), connectivity_stream=len(ci), decimal_step_stream=len(dec_cases), decimal_inexact_quotient=sum(1 for c in dec_cases if c["inexact_quotient"]),
                 vectorized=sum(1 for c in cases if c["vectorize"]), heun=sum(1 for c in cases if c["solver"] == "heun"),
                 in_guard=len(in_guard), guard_violating={g: len(gfalse[g]) for g in GUARDS},
                 raised=sum(1 for o in outs if isinstance(o, dict) and "raised" in o),
